@@ -190,6 +190,16 @@ MUTANTS = [
     (M, "        y._pair_with(self, 1, x)", "        y._pair_with(self, 1, y)", ['matrices.Relation.__new__'], 'breaks'),
     (M, "        y = Y.Tuple.frombools(zip(*x.bools()))", "        y = Y.Tuple.frombools(x.bools())", ['matrices.Relation.__new__'], 'breaks'),
     (M, "            Y = bitsets.bitset(yname, ymembers, Vector, tuple=Vectors)  # noqa: N806", "            Y = X", ['matrices.Relation.__new__'], 'breaks'),
+    (CX, "            if not result.issubset(indexes):\n                raise ValueError('context contains invalid index')", "            pass", ['contexts.fromdict'], 'breaks'),
+    (CX, "            if len(result) != len(r):\n                raise ValueError('context contains duplicated values')", "            pass", ['contexts.fromdict'], 'breaks'),
+    (CX, "        if lattice is not None and not lattice:\n            raise ValueError('empty lattice')", "        pass", ['contexts.fromdict'], 'breaks'),
+    (CX, "            raise ValueError(f'missing required keys in fromdict: {missing!r}')", "            raise KeyError(f'missing required keys in fromdict: {missing!r}')", ['contexts.fromdict'], 'breaks'),
+    (CX, "            inst.lattice = lattices.Lattice._fromlist(inst, lattice, raw)", "            inst.lattice = lattices.Lattice._fromlist(inst, lattice, False)", ['contexts.fromdict'], 'breaks'),
+    (CX, "        if not ignore_lattice and lattice is not None:", "        if lattice is not None:", ['contexts.fromdict'], 'breaks'),
+    (CX, "        bools = [tuple(i in intent for i in indexes)", "        bools = [tuple(i not in intent for i in indexes)", ['contexts.fromdict'], 'breaks'),
+    (CX, "            if not all(isinstance(v, str) for v in values):", "            if not any(isinstance(v, str) for v in values):", ['contexts.fromdict'], 'breaks'),
+    # dropping the early row-count check is behaviour preserving: Context.__init__ rejects the mismatch with ValueError as well
+    (CX, "        if len(context) != len(objects):", "        if False:", ['contexts.fromdict'], 'equivalent'),
 ]
 
 
